@@ -61,7 +61,7 @@ Ev == Tr[l]
 Cfg == Tr[1]
 IsEvent(e) == l <= Len(Tr) /\ Ev.e = e /\ l' = l + 1 /\ UNCHANGED tid
 NoAdopt == [gen |-> 0, tps |-> {}]
-TopicOf(tp) == CHOOSE t \in DOMAIN Cfg.parts : tp \in Range(Cfg.parts[t])
+TopicOf(tp) == Cfg.topic_of[tp]          \* every partition that exists or may come to exist during the run
 IsClient(c) == c \in Clients /\ c \in Range(Cfg.clients)
 Upd(f, k, v) == [x \in DOMAIN f \cup {k} |-> IF x = k THEN v ELSE f[x]]
 
@@ -311,7 +311,7 @@ TEnd ==
        /\ Range(Ev.gmembers) = {Ev.fin[c].member : c \in LiveCs}
        \* the assignments together cover every partition of every subscribed topic
        /\ UNION {adopted[c].tps : c \in LiveCs} =
-            UNION {Range(Cfg.parts[t]) : t \in UNION {subs[c] : c \in LiveCs}}
+            UNION {Range(Ev.parts[t]) : t \in UNION {subs[c] : c \in LiveCs}}     \* (topics may have grown during the run)
   /\ Keep(<<lagUntil, subChg, mid, cgen, expectSync, distd, adopted, gateUp, inRevoke, needRevoke, subs, alive, start, pos, dl, ever,
             fetched, committed>>)
 
@@ -322,8 +322,11 @@ TEndDelivery ==
   /\ Keep(<<lagUntil, subChg, mid, cgen, expectSync, distd, adopted, gateUp, inRevoke, needRevoke, subs, alive, start, pos, dl, ever,
             fetched, committed>>)
 
+TTopicGrows == IsEvent("TopicGrows") /\ UNCHANGED <<mid, cgen, expectSync, distd, adopted, gateUp, inRevoke, needRevoke, subs, alive, start,
+                                                     pos, dl, ever, fetched, committed, subChg, lagUntil>>
+
 TraceNext ==
-  \/ TJoinRequest \/ TJoinReply \/ TSyncRequest \/ TSyncReply \/ TFault \/ TGroupEnv \/ TFailover
+  \/ TTopicGrows \/ TJoinRequest \/ TJoinReply \/ TSyncRequest \/ TSyncReply \/ TFault \/ TGroupEnv \/ TFailover
   \/ TBeginReassign \/ TRevokeStart \/ TRevokeEnd \/ TAdopt \/ TAssignStart \/ TAssignEnd
   \/ TOffsetFetchReply \/ TResetTo \/ TResetDropped \/ TTake \/ TCommitReply \/ TStarted \/ TStopCall \/ TStopped \/ TSubChange \/ TEnd \/ TEndDelivery
 
